@@ -455,7 +455,7 @@ def _vec(vm, m, c, args):
                 new.append(outs[0][2])
         else: raise Unmodelled('Vec::extend from %r' % (src,))
         vm.write_at(m, r.cell, list(r.path), Seq(s.items + tuple(new))); return ret(m, UNIT)
-    if re.match(r'^<Vec<.*> as (std::ops::)?Index<usize>>::index$', c) or re.match(r'^<Vec<.*> as (std::ops::)?IndexMut<usize>>::index_mut$', c) \
+    if re.match(r'^<(Vec|VecDeque)<.*> as (std::ops::)?Index<usize>>::index$', c) or re.match(r'^<(Vec|VecDeque)<.*> as (std::ops::)?IndexMut<usize>>::index_mut$', c) \
             or re.match(r'^<\[.*\] as Index(Mut)?<usize>>::index(_mut)?$', c):
         refs = slice_refs(vm, m, args[0]); i = args[1]
         if is_sym(i): raise Unmodelled('symbolic Vec index')
